@@ -237,6 +237,17 @@ func realiseBase(v J, r *Repr, path, h string) (any, error) {
 			if len(out) == 0 {
 				return []any(nil), nil
 			}
+		case "range": // consecutive integers as a range value; no integers: a range whose end lies well below its start
+			if len(out) == 0 {
+				return values.NewRange(5, 1), nil
+			}
+			for i, e := range out {
+				n, ok := e.(int)
+				if !ok || n != out[0].(int)+i {
+					return nil, fmt.Errorf("repr range: element %d is %v", i, e)
+				}
+			}
+			return values.NewRange(out[0].(int), out[len(out)-1].(int)), nil
 		case "ints":
 			t := make([]int, len(out))
 			for i, e := range out {
@@ -394,7 +405,11 @@ func realiseBase(v J, r *Repr, path, h string) (any, error) {
 }
 
 // realiseEnv builds the binding map from [[name, value], ...].
+// No bindings at all is realised as a nil map, which the API accepts.
 func realiseEnv(pairs []any, r *Repr) (map[string]any, error) {
+	if len(pairs) == 0 {
+		return nil, nil
+	}
 	out := map[string]any{}
 	for _, p := range pairs {
 		pa, _ := p.([]any)
